@@ -1029,6 +1029,12 @@ fn verify_rrsig_with_keys(
     let dnskeys = dnskey_message.answers.iter().filter_map(|r| {
         let dnskey = r.try_borrow::<DNSKEY>()?;
 
+        // Only the signer's own DNSKEY RRset can verify the signature, or tell that the signer is
+        // an insecure zone.
+        if dnskey.name() != &rrsig.data().input().signer_name {
+            return None;
+        }
+
         let tag = match dnskey.data().calculate_key_tag() {
             Ok(tag) => tag,
             Err(e) => {
